@@ -38,7 +38,7 @@ func reg(p *propCfg) {
 func init() {
 	reg(&propCfg{ID: "C10", QuickRuns: 12000, QuickSecs: 40, ThoroughRuns: 400000, ThoroughSecs: 780, Chunk: 50,
 		Level:    "fault_enumeration",
-		RuleNote: "C10 strata: 'enum' = fixed 3-caller session with the server->client stream cut (EOF / reset) after an enumerated byte offset 0..600 (stride 7 so that any prefix of runs spreads over the whole session), schedules sampled; 'random' = 1..8 callers with a drawn fault (cut-eof, cut-reset, write-err, Unmount at a drawn step, unparseable / undersize / oversize frame, reply to unknown tag, peer close, stalled peer that later resets), replies withheld with drawn probability; 'control' = no fault, every call must succeed.",
+		RuleNote: "C10 strata: 'enum' = fixed 3-caller session with the server->client stream cut (EOF / reset) after an enumerated byte offset 0..600 (stride 7 so that any prefix of runs spreads over the whole session), schedules sampled; 'random' = 1..8 callers with a drawn fault (cut-eof, cut-reset, write-err, Unmount at a drawn step, unparseable / undersize / oversize frame, reply to unknown tag, peer close, stalled peer that later resets), replies withheld with drawn probability; 'control' = no fault, every call must succeed. Fault kind 'stall-then-cut': the peer stops reading so that the client's writer blocks on a bounded transport, then only the server-to-client stream ends.",
 		Real:     []string{"go9p client library (Clnt, Rpc/Rpcnb, recv/send goroutines, pools, Logger) — instrumented copy of /repo", "Go runtime, channels, mutexes"},
 		Stub:     []string{"9P server: scripted peer with an independent codec", "transport: simulated net.Conn (segmentation, back-pressure, cuts, resets, write errors)"},
 		ProbeNames: []string{"fault-with-2+-calls-failing", "2+-outstanding-at-server"}})
@@ -49,7 +49,7 @@ var srvStub = []string{"file-server implementation: ScriptFS (scripted SrvReqOps
 
 func init() {
 	reg(&propCfg{ID: "C03", QuickRuns: 6000, QuickSecs: 40, ThoroughRuns: 300000, ThoroughSecs: 780, Chunk: 50,
-		RuleNote:   "C03: 1..3 connections, per connection 1..16 (thorough 1..64) pipelined requests of 9 types on 1..64 tags that are reused as soon as a reply arrives; per request the script answers now / parked until released / after returning / from another goroutine / with an Rerror; stratum 'double-answer' also answers twice with different content. Held requests are released one per phase in scheduler-chosen order.",
+		RuleNote:   "C03: 1..3 connections, per connection 1..16 (thorough 1..64) pipelined requests of 9 types on 1..64 tags that are reused as soon as a reply arrives; per request the script answers now / parked until released / after returning / from another goroutine / with an Rerror; stratum 'double-answer' also answers twice with different content. Held requests are released one per phase in scheduler-chosen order. Every 16th run is the stratum 'tversion-mid-session': 1..16 Tstat requests (a drawn share parked in the implementation) with a Tversion behind them in the same or the next segment; once the server is idle again the same tags are used for new requests, each of which must get exactly one Rstat.",
 		Real:       srvReal, Stub: srvStub,
 		ProbeNames: []string{"multi-message-segment", "tag-reused-after-reply", "3+-held-simultaneously", "release-order-differs-from-arrival", "completion-order-differs-from-arrival", "8+-requests-held-on-a-connection"}})
 }
@@ -63,7 +63,7 @@ func init() {
 
 func init() {
 	reg(&propCfg{ID: "C08", QuickRuns: 6000, QuickSecs: 40, ThoroughRuns: 300000, ThoroughSecs: 780, Chunk: 50,
-		RuleNote:   "C08: 1..3 connections with 2..12 requests each, a drawn subset of up to 3 (thorough 6) parked inside the implementation (in the callback or answering later from another goroutine); at every quiescence (before any release, after each release in scheduler-chosen order) every other written request must have its reply, and Tstat requests issued while the subset is parked must be answered; stratum 'shared-tag-groups' adds groups of 2..8 requests issued under one tag without waiting, checked for one-at-a-time execution and reply order.",
+		RuleNote:   "C08: 1..3 connections with 2..12 requests each, a drawn subset of up to 3 (thorough 6) parked inside the implementation (in the callback or answering later from another goroutine); at every quiescence (before any release, after each release in scheduler-chosen order) every other written request must have its reply, and Tstat requests issued while the subset is parked must be answered; stratum 'shared-tag-groups' adds groups of 2..8 requests issued under one tag without waiting, checked for one-at-a-time execution and reply order. Every 10th run is the stratum 'auth-fid-blocked': server with AuthOps, one Tread or Twrite on an authentication fid parked inside AuthRead / AuthWrite; a Twrite and a Tread on the same afid, a Tattach naming it, Tstat / Twalk on other fids and requests on a second connection must all be answered meanwhile.",
 		Real:       srvReal, Stub: srvStub,
 		ProbeNames: []string{"quiescence-with-requests-parked", "late-request-answered-while-others-parked", "shared-tag-group-of-3+", "group-member-parked-with-successors", "3+-held-simultaneously", "release-order-differs-from-arrival"}})
 }
@@ -78,7 +78,7 @@ func init() {
 func init() {
 	reg(&propCfg{ID: "C13", QuickRuns: 3000, QuickSecs: 40, ThoroughRuns: 200000, ThoroughSecs: 780, Chunk: 40,
 		Level:      "exploration",
-		RuleNote:   "C13 server strata: a session of 40..120 (thorough ..400) messages mixing 9/11-byte messages, Twrite up to msize-1 and Twstat of exactly msize bytes, msize 96..4096 so the 8 x msize receive buffer wraps many times, delivered by policy (1 byte per read, 1..3 bytes, random, everything, mixed), written in one piece, or with exactly one split point enumerated by run index (stride 13); some requests parked so that later bytes arrive while their payload is still referenced; 'server-fifo' issues the whole session under one tag (execution and reply order checked), 'server-concurrent' under distinct tags. Expected invocations and replies are a function of the stream. Stratum 'client' feeds the library client's receive loop a scripted reply stream (reads up to msize-24, stats) under the same policies.",
+		RuleNote:   "C13 server strata: a session of 40..120 (thorough ..400) messages mixing 9/11-byte messages, Twrite up to msize-1 and Twstat of exactly msize bytes, msize 96..4096 so the 8 x msize receive buffer wraps many times, delivered by policy (1 byte per read, 1..3 bytes, random, everything, mixed), written in one piece, or with exactly one split point enumerated by run index (stride 13); some requests parked so that later bytes arrive while their payload is still referenced; 'server-fifo' issues the whole session under one tag (execution and reply order checked), 'server-concurrent' under distinct tags. Expected invocations and replies are a function of the stream. Stratum 'client' feeds the library client's receive loop a scripted reply stream (reads up to msize-24, stats) under the same policies. Every 8th run is the stratum 'server-handshake': the byte stream starts with the Tversion itself (plain or .u, msize above or below the server's), followed without waiting by 1..6 requests whose wire format depends on the dialect (Tattach, Tauth, Tcreate, Twstat, Tstat); delivered whole or with one enumerated split point, every message must get the reply it gets when delivered alone.",
 		Real:       append(append([]string{}, srvReal...), "go9p client receive loop (client stratum)"), Stub: srvStub,
 		ProbeNames: []string{"message-of-exactly-msize", "session-larger-than-receive-buffer", "split-inside-first-size-prefix"}})
 }
@@ -95,14 +95,14 @@ var clntStub = []string{"9P server: scripted peer with an independent codec, ans
 
 func init() {
 	reg(&propCfg{ID: "C09", QuickRuns: 2000, QuickSecs: 40, ThoroughRuns: 200000, ThoroughSecs: 780, Chunk: 25, WatchdogSecs: 900,
-		RuleNote:   "C09: stratum 'concurrent': 1..16 (thorough ..64) caller goroutines with 2..8 calls each (Read, Write, Stat, Walk, Open, Clunk, reads answered with Rerror text+number, reads answered with a reply of the wrong type, pipelined Tag-interface reads sharing a tag); the scripted server withholds replies with drawn probability and releases them one per phase in scheduler-chosen order, replies segmented by policy; reply content is a function of the request. Stratum 'long-run' (every 50th run): 10 000 (thorough 70 000 > 65 535) consecutive calls over one connection. Stratum 'long-run-wide' (quick: one run, thorough: every 800th): 100 000 calls, 64 at a time in flight through ReqAlloc/Rpcnb/ReqFree, so that 48 of every 64 request slots overflow the client's 16-slot cache and their tags pass through the tag pool (more than 65 535 pool round trips).",
+		RuleNote:   "C09: stratum 'concurrent': 1..16 (thorough ..64) caller goroutines with 2..8 calls each (Read, Write, Stat, Walk, Open, Clunk, reads answered with Rerror text+number, reads answered with a reply of the wrong type, pipelined Tag-interface reads sharing a tag); the scripted server withholds replies with drawn probability and releases them one per phase in scheduler-chosen order, replies segmented by policy; reply content is a function of the request. Stratum 'long-run' (every 50th run): 10 000 (thorough 70 000 > 65 535) consecutive calls over one connection. Stratum 'long-run-wide' (quick: one run, thorough: every 800th): 100 000 calls, 64 at a time in flight through ReqAlloc/Rpcnb/ReqFree, so that 48 of every 64 request slots overflow the client's 16-slot cache and their tags pass through the tag pool (more than 65 535 pool round trips). Callers also use the path helpers FStat / FOpen / FWalk, with names the scripted server refuses (Rerror) or walks only partly; pipelined Tag reads hand their completions to a consumer channel of capacity n, 0 or 1 and must complete in issue order (c4-tag-order).",
 		Real:       clntReal, Stub: clntStub,
 		ProbeNames: []string{"8+-calls-outstanding", "32+-calls-outstanding", "replies-delivered-out-of-order", "tag-value-reused-after-free", "5+-replies-withheld"}})
 }
 
 func init() {
 	note := "C04/C05 share one harness: histories of 10..40 (thorough ..200) requests over fid numbers {0..5,7,NOFID,NOFID-1} on 1..2 connections using the same numbers, all message types incl. walks that are full, partial, failing, zero-name, in place or onto a used newfid, attach with/without afid, open modes incl. OTRUNC/ORCLOSE, create perms incl. DMDIR and the special-file bits, read/write counts at 0, 1, msize-25, msize-24, msize-23, 2^31, 2^32-24, 2^32-11, 2^32-1, both dialects, with and without AuthOps; the generator runs the reference model forward to keep histories in interesting states. Requests are issued one at a time (the next the moment the previous reply is readable, while the previous worker may still be running); every reply, every implementation call (operation, fid object identity, user, arguments) and every FidDestroy is compared with the reference fid-table model, then every fid number is probed."
-	reg(&propCfg{ID: "C04", QuickRuns: 4000, QuickSecs: 40, ThoroughRuns: 200000, ThoroughSecs: 780, Chunk: 50, RuleNote: note + " C04 evaluates rules a*: validity, refusal texts, forwarding of requests naming invalid fids, user binding, FidDestroy exactly once and not after the invalidating reply, final probes. Every 5th run of C04 is the stratum 'concurrent-batch': after a prologue, 2..8 (thorough ..30) rounds each send 2..4 requests (Tattach, Twalk to a new or the same fid with 0/1 names, Tclunk, Tremove, Tstat) that mostly meet on one of four fid numbers, in one segment or back to back, the implementation holding a drawn share of them until released in drawn order; the replies, the implementation calls per request and the validity of every number afterwards (probed with Tstat) must be explained by some order of the batch applied to the fid-table model (all orders tried; a request overlapping an invalidation or an unanswered bind of its fid may go either way), and at the end every fid object shown to the implementation is reported destroyed exactly once unless still valid.",
+	reg(&propCfg{ID: "C04", QuickRuns: 4000, QuickSecs: 40, ThoroughRuns: 200000, ThoroughSecs: 780, Chunk: 50, RuleNote: note + " C04 evaluates rules a*: validity, refusal texts, forwarding of requests naming invalid fids, user binding, FidDestroy exactly once and not after the invalidating reply, final probes. 30 % of the forwarded Twrites are parked in the implementation while a filler request arrives (arguments and payload must stay intact). 60 % of C04 histories end with an epilogue: on some connections a parked request is cancelled by Tflush (FlushOp), then the client leaves, and every fid object ever shown to the implementation must have been reported destroyed exactly once. Every 10th C04 run is the stratum 'ufs-fid-table': 10..40 (thorough ..150) requests of all kinds over six fid numbers against the real Ufs (including hard-link creates that name a source fid), validity model driven by the replies, Tstat probes at the end. Every 5th run of C04 is the stratum 'concurrent-batch': after a prologue, 2..8 (thorough ..30) rounds each send 2..4 requests (Tattach, Twalk to a new or the same fid with 0/1 names, Tclunk, Tremove, Tstat) that mostly meet on one of four fid numbers, in one segment or back to back, the implementation holding a drawn share of them until released in drawn order; the replies, the implementation calls per request and the validity of every number afterwards (probed with Tstat) must be explained by some order of the batch applied to the fid-table model (all orders tried; a request overlapping an invalidation or an unanswered bind of its fid may go either way), and at the end every fid object shown to the implementation is reported destroyed exactly once unless still valid.",
 		Real: srvReal, Stub: srvStub, ProbeNames: []string{"refused-before-forward", "fid-invalidated", "forwarded-walk", "forwarded-attach"}})
 	reg(&propCfg{ID: "C05", QuickRuns: 4000, QuickSecs: 40, ThoroughRuns: 200000, ThoroughSecs: 780, Chunk: 50, RuleNote: note + " C05 evaluates rules b*: refusal before forwarding for every protocol rule, forwarded exactly once with the fid object, user and arguments named, reply equal to what the implementation produced, authentication gate.",
 		Real: srvReal, Stub: srvStub, ProbeNames: []string{"refused-before-forward", "forwarded-read", "forwarded-write", "forwarded-create", "forwarded-open"}})
